@@ -72,17 +72,9 @@ def run(chk):
                 else:
                     r2.ok("%s(noreply=True, ignore_exc=%s): no reader call reachable" % (fn.qualname, cfg["ignore_exc"]))
             else:
-                # a for-loop over the commands that runs zero times has sent an empty batch: nothing to read (R3 couples
-                # the number of reads to the number of commands); only paths that iterate count here
-                rloops = [l for l, c in _loops_with_reader(fn, readers, rmeth) if isinstance(l, ast.For)]
-                skip = lambda t: any(("for@%d:exhausted" % l.lineno) in t and ("for@%d:iter" % l.lineno) not in t for l in rloops)
-                bad = [(s, t) for s, v, t in outs.of("ret") if s.get("sent") and not s.get("reads") and s.get("caught") is None and not skip(t)]
-                if not [e for e in dom.events if e[0] == "read"]:
-                    bad = bad or [(None, ("no reader call is reachable at all",))]
-                if bad:
-                    r2.fail("%s:return-without-read" % fn.qualname, "%s can return normally after sendall without having read any reply although it did not ask for noreply" % fn.qualname, fn=fn, witness=fmt_trace(bad[0][1]))
-                else:
-                    r2.ok("%s(noreply=%s, ignore_exc=%s): every normal return after sendall has read" % (fn.qualname, nr, cfg["ignore_exc"]))
+                # noreply falsy => the reply is read: decided per public method by C01.R3 (reads consumed = reply lines
+                # the protocol defines for the commands of the call, for 0, 1 and 2 keys); here only reachability
+                r2.expect(bool([e for e in dom.events if e[0] == "read"]), "%s(noreply=%s, ignore_exc=%s): a reader call is reachable" % (fn.qualname, nr, cfg["ignore_exc"]), "%s:return-without-read" % fn.qualname, "%s never reaches a reader call although it did not ask for noreply" % fn.qualname, fn=fn)
         if not any(True for cfg, outs, dom, interp in runs_by_fn[fn.qualname] if dom.n_sendall):
             raise AnalysisError("C01.R2a: sendall never reached in %s" % fn.qualname)
 
@@ -94,9 +86,8 @@ def run(chk):
     r2b.floor("call sites of _store_cmd/_misc_cmd-like exchange functions", n_sites, 17)
 
     # ------------------------------------------------------------------ R3 one reply per command
-    r3 = chk.rule("C01.R3", "one reply is read per command sent, in order (paired appends / same collection / terminator-controlled return)")
-    for fn in rr_fns:
-        check_reply_count(prog, fn, readers, rmeth, r3)
+    r3 = chk.rule("C01.R3", "each call consumes exactly the reply the protocol defines for its own commands: it returns only after the last line of that reply and never asks for more (every public method, 0/1/2 keys, evaluated end to end against scripted replies)")
+    reply_consumption(prog, r3)
 
     # ------------------------------------------------------------------ R4 no bytes survive a call
     r4 = chk.rule("C01.R4", "exchange functions and readers keep receive state in locals only (no attribute or module-level writes)")
@@ -163,205 +154,60 @@ def stmt_at(fn_node, lineno):
     return s(fn_node, lineno)
 
 
-def _loops_with_reader(fn, readers, rmeth):
-    al = exchange.local_reader_aliases(fn, readers) | set(readers)
-    out = []
-    for n in walk_no_nested(fn.node):
-        if isinstance(n, (ast.For, ast.While)):
-            calls = []
-            for x in ast.walk(n):
-                if isinstance(x, ast.Call) and ((isinstance(x.func, ast.Name) and x.func.id in al) or (isinstance(x.func, ast.Attribute) and is_self_attr(x.func) and x.func.attr in rmeth)):
-                    calls.append(x)
-            if calls:
-                out.append((n, calls))
-    # keep outermost loops only
-    res = []
-    for n, c in out:
-        if not any(m is not n and any(y is n for y in ast.walk(m)) for m, _ in out):
-            res.append((n, c))
-    return res
-
-
-class CountDomain(exchange.ExchangeDomain):
-    """Counts reader calls / list appends inside one loop iteration (reader calls inside inlined helpers included)."""
-
-    def __init__(self, prog, fn, readers, rmeth=None, lists=()):
-        super().__init__(prog, fn, readers, None, with_async=False)
-        self.lists = set(lists)
-
-    def on_read(self, node, args, state):
-        return state.set("nread", min(3, state.get("nread", 0) + 1))
-
-    def call(self, node, fval, args, kwargs, state):
-        if isinstance(node.func, ast.Attribute) and node.func.attr in ("append", "extend", "insert") and isinstance(node.func.value, ast.Name) and node.func.value.id in self.lists:
-            k = "app:" + node.func.value.id
-            inc = 1 if node.func.attr == "append" else 2
-            state = state.set(k, min(3, state.get(k, 0) + inc))
-        return super().call(node, fval, args, kwargs, state)
-
-
-def _iter_outcomes(prog, fn, loop, dom, init):
-    interp = Interp(dom, fn.node, prog)
-    outs = interp.block(loop.body, [(init, ())], Ctx(fn.node))
-    return outs
-
-
-def check_reply_count(prog, fn, readers, rmeth, r3):
-    loops = _loops_with_reader(fn, readers, rmeth)
-    if len(loops) != 1:
-        r3.fail("%s:read-loop-shape" % fn.qualname, "%s has %d loops containing reader calls (expected exactly one read loop)" % (fn.qualname, len(loops)), fn=fn)
+def verdict(rule, offending, what, construct, msg, fn):
+    """offending: outcomes (state, value, trace) that contradict the obligation.  One that lies on a path where the
+    abstraction guessed (a loop over an unknown iterable) makes the obligation undecided, not violated."""
+    if not offending:
+        rule.ok(what)
         return
-    loop, calls = loops[0]
-    helpers = exchange.send_helpers(prog)
-    sends = [n for n in walk_no_nested(fn.node) if isinstance(n, ast.Call) and isinstance(n.func, ast.Attribute) and (n.func.attr == "sendall" or (is_self_attr(n.func) and n.func.attr in helpers))]
-    if len(sends) != 1:
-        r3.fail("%s:sendall-count" % fn.qualname, "%s has %d sendall sites; one command batch per exchange is required" % (fn.qualname, len(sends)), fn=fn)
-        return
-    send = sends[0]
-    for anc in _ancestors(send):
-        if isinstance(anc, (ast.For, ast.While)):
-            r3.fail("%s:sendall-in-loop" % fn.qualname, "sendall is inside a loop in %s: commands are sent piecemeal while replies are read per batch" % fn.qualname, fn=fn, node=send)
-            return
-    if isinstance(loop, ast.For):
-        # (a) exactly one line-reader call per completed iteration
-        dom = CountDomain(prog, fn, readers, rmeth)
-        init = dom.init_state(fn.node).set("nread", 0).set("sent", 1)
-        outs = _iter_outcomes(prog, fn, loop, dom, init)
-        done = outs.of("norm") + outs.of("cont")
-        if not done:
-            r3.fail("%s:read-loop-never-completes" % fn.qualname, "no iteration of the read loop of %s completes normally" % fn.qualname, fn=fn, node=loop)
-            return
-        bad = [s for s, v, t in done if s.get("nread") != 1] + [s for s, v, t in outs.of("brk")]
-        r3.expect(not bad, "%s: every completed iteration of the read loop performs exactly one reader call" % fn.qualname, "%s:reads-per-iteration" % fn.qualname, "an iteration of the read loop of %s can complete with %s reader calls (or leave the loop early): replies and commands get out of step" % (fn.qualname, sorted({s.get("nread") for s in bad} if bad else "")), fn=fn, node=loop)
-        # (b) the iterated collection has one element per command sent
-        it = loop.iter
-        sent_arg = send.args[0] if send.args else None
-        joined = None
-        if isinstance(sent_arg, ast.Call) and isinstance(sent_arg.func, ast.Attribute) and sent_arg.func.attr == "join" and sent_arg.args and isinstance(sent_arg.args[0], ast.Name):
-            joined = sent_arg.args[0].id
-        if not isinstance(it, ast.Name) or joined is None:
-            r3.fail("%s:read-loop-iterable" % fn.qualname, "cannot relate the read loop iterable `%s` to what is sent `%s`" % (node_src(it), node_src(sent_arg) if sent_arg is not None else "?"), fn=fn, node=loop)
-            return
-        if it.id == joined:
-            # same collection iterated twice: every caller must pass a real list (checked at the call sites)
-            p = fn.param(it.id)
-            if p is not None:
-                sites = _call_sites(prog, fn)
-                for caller, call in sites:
-                    arg = _arg_for(call, fn, it.id)
-                    ok = isinstance(arg, ast.List) or (isinstance(arg, ast.Name) and _is_local_list(caller, arg.id))
-                    r3.expect(ok, "%s passes a list as `%s` to %s" % (caller.qualname, it.id, fn.name), "%s:passes-non-list-to-%s" % (caller.qualname, fn.name), "%s passes `%s` as `%s` to %s, which joins it for sending and then iterates it again to read one reply per command: a one-shot iterable is exhausted by the join and no reply is read" % (caller.qualname, node_src(arg) if arg is not None else "?", it.id, fn.name), fn=caller, node=call)
-                r3.floor("call sites of %s" % fn.name, len(sites), 1)
-            else:
-                r3.ok("%s: read loop iterates the local collection that is sent" % fn.qualname)
-        else:
-            # paired appends in the builder loop
-            builders = [n for n in walk_no_nested(fn.node) if isinstance(n, ast.For) and n is not loop and any(isinstance(x, ast.Call) and isinstance(x.func, ast.Attribute) and x.func.attr in ("append", "extend") and isinstance(x.func.value, ast.Name) and x.func.value.id in (it.id, joined) for x in ast.walk(n))]
-            ok_init = _is_local_list(fn, it.id) and _is_local_list(fn, joined)
-            if len(builders) != 1 or not ok_init:
-                r3.fail("%s:builder-shape" % fn.qualname, "cannot establish that `%s` (iterated for replies) and `%s` (sent) have one element per command" % (it.id, joined), fn=fn, node=loop)
-                return
-            b = builders[0]
-            dom = CountDomain(prog, fn, readers, rmeth, lists=(it.id, joined))
-            init = dom.init_state(fn.node)
-            outs = _iter_outcomes(prog, fn, b, dom, init)
-            done = outs.of("norm") + outs.of("cont") + outs.of("brk")
-            bad = [s for s, v, t in done if not (s.get("app:" + it.id, 0) == 1 and s.get("app:" + joined, 0) == 1)]
-            r3.expect(done and not bad, "%s: each builder iteration appends exactly one element to `%s` and to `%s`" % (fn.qualname, it.id, joined), "%s:unpaired-appends" % fn.qualname, "an iteration of the command-building loop of %s can complete with %s appends to `%s` and %s to `%s`: the number of replies read differs from the number of commands sent" % (fn.qualname, sorted({s.get('app:' + it.id, 0) for s in bad}), it.id, sorted({s.get('app:' + joined, 0) for s in bad}), joined), fn=fn, node=b)
-            # nothing else mutates the two lists
-            for n in walk_no_nested(fn.node):
-                if isinstance(n, ast.Call) and isinstance(n.func, ast.Attribute) and isinstance(n.func.value, ast.Name) and n.func.value.id in (it.id, joined) and n.func.attr in ("pop", "remove", "clear", "insert", "extend", "sort", "reverse", "append"):
-                    inside = any(y is n for y in ast.walk(b))
-                    if not inside or n.func.attr != "append":
-                        r3.fail("%s:list-mutated:%s.%s" % (fn.qualname, n.func.value.id, n.func.attr), "`%s.%s(...)` changes the pairing between commands sent and replies read" % (n.func.value.id, n.func.attr), fn=fn, node=n)
+    exact = [o for o in offending if not o[0].get("imprecise", 0)]
+    if exact:
+        rule.fail(construct, msg, fn=fn, witness=fmt_trace(exact[0][2]) if exact[0][2] else None)
     else:
-        # while loop (fetch): the only normal return inside the loop is guarded by a terminator comparison
-        rets = [n for n in ast.walk(loop) if isinstance(n, ast.Return)]
-        if not rets:
-            r3.fail("%s:no-return-in-read-loop" % fn.qualname, "read loop without return", fn=fn, node=loop)
-        line_vars = set()
-        for c in calls:
-            p = getattr(c, "_parent", None)
-            if isinstance(p, ast.Assign) and isinstance(p.targets[0], ast.Tuple) and len(p.targets[0].elts) == 2 and isinstance(p.targets[0].elts[1], ast.Name):
-                line_vars.add(p.targets[0].elts[1].id)
-        for ret in rets:
-            guard = None
-            for anc in _ancestors(ret):
-                if anc is loop:
-                    break
-                if isinstance(anc, ast.If) and any(y is ret for b_ in anc.body for y in ast.walk(b_)):
-                    guard = anc
-                    break
-                if isinstance(anc, ast.ExceptHandler):
-                    guard = "handler"
-                    break
-            if guard == "handler":
-                continue
-            ok = guard is not None and _is_terminator_test(guard.test, line_vars)
-            r3.expect(ok, "%s: return inside the read loop is guarded by a terminator comparison" % fn.qualname, "%s:return-not-terminator-guarded" % fn.qualname, "a return inside the read loop of %s is not control-dependent on the reply line being a protocol terminator (%s): the call could stop reading before the end of its reply" % (fn.qualname, "/".join(t.decode() for t in TERMINATORS)), fn=fn, node=ret)
-        if isinstance(loop.test, ast.Constant) and loop.test.value:
-            r3.ok("%s: read loop has no exit other than return/raise" % fn.qualname)
-        else:
-            r3.fail("%s:read-loop-condition" % fn.qualname, "read loop condition `%s` lets the loop end without having seen the terminator" % node_src(loop.test), fn=fn, node=loop)
-        for n in ast.walk(loop):
-            if isinstance(n, ast.Break):
-                r3.fail("%s:break-in-read-loop" % fn.qualname, "break leaves the read loop before the terminator line", fn=fn, node=n)
+        rule.undecided(construct, "%s -- %s (on a path through a loop over an iterable the analysis does not know)" % (what, msg))
 
 
-def _is_terminator_test(test, line_vars):
-    if isinstance(test, ast.BoolOp) and isinstance(test.op, ast.Or):
-        return all(_is_terminator_test(v, line_vars) for v in test.values)
-    if isinstance(test, ast.Compare) and len(test.ops) == 1:
-        l, r = test.left, test.comparators[0]
-        if isinstance(test.ops[0], ast.Eq):
-            for a, b in ((l, r), (r, l)):
-                if isinstance(a, ast.Name) and a.id in line_vars and isinstance(b, ast.Constant) and b.value in TERMINATORS:
-                    return True
-        if isinstance(test.ops[0], ast.In) and isinstance(l, ast.Name) and l.id in line_vars and isinstance(r, (ast.Tuple, ast.List, ast.Set)):
-            return all(isinstance(e, ast.Constant) and e.value in TERMINATORS for e in r.elts) and len(r.elts) > 0
-    return False
+def reply_consumption(prog, r3):
+    """For every public method of Client that talks to the server and every reply script of spec.CALL_SCRIPTS:
+    with the full reply the method returns having read all of it and nothing beyond; with the reply cut before its last
+    item it does not return; with noreply it reads nothing."""
+    from . import wire, spec
+    from .rules_C05 import script_eval
 
-
-def _ancestors(n):
-    n = getattr(n, "_parent", None)
-    while n is not None:
-        yield n
-        n = getattr(n, "_parent", None)
-
-
-def _call_sites(prog, fn):
-    out = []
-    for f in prog.all_functions():
-        for n in walk_no_nested(f.node):
-            if isinstance(n, ast.Call) and isinstance(n.func, ast.Attribute) and n.func.attr == fn.name and isinstance(n.func.value, ast.Name) and n.func.value.id == "self" and f.cls is not None and fn.cls is not None and f.cls.name == fn.cls.name:
-                out.append((f, n))
-    return out
-
-
-def _arg_for(call, fn, pname):
-    pos = [p.name for p in fn.pos_params()]
-    for k in call.keywords:
-        if k.arg == pname:
-            return k.value
-    if pname in pos and pos.index(pname) < len(call.args):
-        return call.args[pos.index(pname)]
-    return None
-
-
-def _is_local_list(f, name):
-    """name is bound in f only to list displays / list comprehensions, and never re-bound to anything else."""
-    defs = []
-    for n in walk_no_nested(f.node):
-        if isinstance(n, ast.Assign):
-            for t in n.targets:
-                if isinstance(t, ast.Name) and t.id == name:
-                    defs.append(n.value)
-        elif isinstance(n, (ast.AugAssign, ast.AnnAssign)) and isinstance(n.target, ast.Name) and n.target.id == name:
-            defs.append(getattr(n, "value", None))
-        elif isinstance(n, (ast.For,)):
-            for x in ast.walk(n.target):
-                if isinstance(x, ast.Name) and x.id == name:
-                    defs.append(None)
-    if any(p.name == name for p in f.params):
-        return False
-    return bool(defs) and all(isinstance(d, (ast.List, ast.ListComp)) or (isinstance(d, ast.Call) and call_name(d) == "list") for d in defs)
+    methods = wire.wire_methods(prog)
+    n_scripts = 0
+    for m in methods:
+        scripts = spec.CALL_SCRIPTS.get(m.name)
+        if scripts is None:
+            r3.fail("Client.%s:no-reply-script" % m.name, "Client.%s sends a command but pmcsa/spec.py defines no protocol reply for it: add the method to CALL_SCRIPTS" % m.name, fn=m)
+            continue
+        variants = [(n, r, False) for n, r in scripts]
+        if m.param("keys") is not None:
+            variants += [(n, r, True) for n, r in scripts if n]
+        for nkeys, replies, oneshot in variants:
+            n_scripts += 1
+            shown = [r.decode() if isinstance(r, bytes) else "<close>" for r in replies]
+            outs = script_eval(prog, m.name, replies, nkeys=nkeys, full=True, oneshot=oneshot)
+            rets, excs = outs.of("ret"), outs.of("exc")
+            over = [(s, e, t) for s, e, t in excs if s.get("overread", 0)] + [(s, v, t) for s, v, t in rets if s.get("overread", 0)]
+            short = [(s, v, t) for s, v, t in rets if s.get("nread", 0) < len(replies)]
+            what = "Client.%s(%d key%s%s), reply %s" % (m.name, nkeys, "" if nkeys == 1 else "s", " given as a one-shot iterator" if oneshot else "", shown)
+            verdict(r3, over, "%s: nothing is read beyond the reply" % what, "Client.%s:reads-beyond-reply" % m.name, "%s: the call tries to read another reply item after the %d the protocol defines: it blocks, or consumes the reply of the next request" % (what, len(replies)), m)
+            verdict(r3, short, "%s: returns only after the whole reply" % what, "Client.%s:returns-before-end-of-reply" % m.name, "%s: the call can return after %s of %d reply items: the rest stays queued on the connection and is taken for the reply to the next request" % (what, sorted({s.get("nread", 0) for s, v, t in short}), len(replies)), m)
+            if not rets and not over:
+                bad = [(s, e, t) for s, e, t in excs]
+                verdict(r3, bad or [(Env(), None, ())], "%s: the call returns" % what, "Client.%s:valid-reply-rejected" % m.name, "%s: the call never returns normally for this valid reply (it raises %s)" % (what, sorted({str(e.cls) for s, e, t in excs})), m)
+            if replies:
+                outs = script_eval(prog, m.name, replies[:-1], nkeys=nkeys, full=True, oneshot=oneshot)
+                early = outs.of("ret")
+                verdict(r3, early, "%s cut before its last item: no return" % what, "Client.%s:returns-before-end-of-reply" % m.name, "%s: with the last item missing the call still returns (%s): it does not wait for the end of its reply" % (what, sorted({str(v) for s, v, t in early})), m)
+        if m.param("noreply") is not None:
+            for nkeys in sorted({n for n, r in scripts}):
+                n_scripts += 1
+                outs = script_eval(prog, m.name, (), nkeys=nkeys, noreply=True, full=True)
+                tried = [(s, e, t) for s, e, t in outs.of("exc") if s.get("overread", 0)] + [(s, v, t) for s, v, t in outs.of("ret") if s.get("overread", 0) or s.get("nread", 0)]
+                verdict(r3, tried, "Client.%s(%d keys, noreply): reads nothing" % (m.name, nkeys), "Client.%s:read-with-noreply" % m.name, "Client.%s with noreply tries to read a reply that the server will never send" % m.name, m)
+                if not outs.of("ret") and not tried:
+                    verdict(r3, outs.of("exc") or [(Env(), None, ())], "Client.%s(%d keys, noreply): returns" % (m.name, nkeys), "Client.%s:read-with-noreply" % m.name, "Client.%s with noreply never returns normally" % m.name, m)
+    r3.floor("methods", len(methods), 25)
+    r3.count("scripts", n_scripts)
